@@ -3,6 +3,13 @@
 import json, os, re, glob
 V = os.path.dirname(os.path.dirname(os.path.abspath(__file__)))
 rows = []
+OWN = {}
+op = os.path.join(V, 'seeded', 'own_checks.txt')
+if os.path.exists(op):
+    for l in open(op):
+        mo = re.match(r'^(\w+) (C\d\d) :: *(VIOLATION|OK|INCONCLUSIVE)?', l)
+        if mo and mo.group(3):
+            OWN[mo.group(1)] = (mo.group(2), mo.group(3))
 for d in sorted(glob.glob(os.path.join(V, 'seeded', '*'))):
     if not os.path.isdir(d):
         continue
@@ -25,6 +32,8 @@ for d in sorted(glob.glob(os.path.join(V, 'seeded', '*'))):
             p = l.split()
             if len(p) >= 2:
                 matrix[p[0]] = ' '.join(p[1:])
+    if not matrix and name in OWN:
+        matrix = {OWN[name][0]: OWN[name][1] + ' (own check only: tools/own.sh)'}
     existing_pass = sum(int(x[1]) for x in suite if x[0] == 'ok')
     meta = {
         'breaks_property': pid,
@@ -37,7 +46,7 @@ for d in sorted(glob.glob(os.path.join(V, 'seeded', '*'))):
             'existing_tests_passed_with_patch': existing_pass,
             'demo_with_patch': ['%s %s passed %s failed' % x for x in demo] or ['aborted (no test result line: the demo process was killed by the failure)'],
         },
-        'checks_run': 'tools/matrix.sh: bin/check <every property> --tier quick --repo <scratch copy of /repo with patch.diff applied>',
+        'checks_run': 'tools/matrix2.sh: bin/check <every property whose inputs the change touches> --tier quick --repo <scratch copy of /repo with patch.diff applied> (the other checks read byte-identical text); where no full matrix was run with the final machinery: the own-property check (tools/own.sh)',
         'check_results': matrix,
         'caught_by': sorted(k for k, v in matrix.items() if v.startswith('VIOLATION')),
     }
